@@ -341,6 +341,9 @@ def node_nonnull_at(fn, site, member="node_"):
 def run(ctx, prog):
     from rules import jsonparse
     jsonparse.r_validafter(ctx, prog)
+    from rules import nulldata
+    nulldata.run(ctx, prog)
+    false_only_on_failure(ctx, prog)
     cg, ext = prog.callgraph()
     rule = "R-FALLIBLE"
     n_sites = 0
@@ -645,3 +648,65 @@ def run(ctx, prog):
     ctx.floor(rule, "writes through node_->data", nb, 4)
     for r_ in ("R-FALLIBLE", "R-REALLOC", "R-STICKY", "R-LINK", "R-BUILDER", "R-NOMEM"):
         ctx.doc(r_, r_)
+
+
+def false_only_on_failure(ctx, prog, rule="R-FALSEONLY"):
+    """The boolean result of a numeric VariantData setter (setInteger,
+    setFloat; setString also reports a null source) means "memory was
+    available": `return false` is reached only from the failure edge of an
+    allocation made in that setter (callers turn false into NoMemory /
+    overflowed).  A setter that reports false because a value does not fit
+    the configured integer range turns a representable-as-null value into an
+    allocation error."""
+    n = 0
+    for fn in sorted(prog.fns.values(), key=lambda f: f.key):
+        if not fn.cls.endswith("VariantData") or fn.name not in ("setInteger", "setFloat") or fn.cfg is None:
+            continue
+        if fn.d.get("retk") != "bool":
+            continue
+        falses = []
+        for i in fn.walk():
+            st = fn.s(i)
+            if st["k"] == "ReturnStmt" and st["c"]:
+                r = fn.s(fn.strip(st["c"][0], casts=True))
+                if r["k"] == "CXXBoolLiteralExpr" and r["v"] is False:
+                    falses.append(i)
+        if not falses:
+            continue
+        n += 1
+        allocs = [i for i, st in fn.calls() if st["callee"]["q"].split("::")[-1] in
+                  ("allocExtension", "saveString", "createString", "allocVariant", "resizeString", "save")]
+        bad = None
+        for r in falses:
+            ok = False
+            for cond, pol in fn.guards_of(r):
+                c = fn.s(fn.strip(cond, casts=True))
+                neg = False
+                while c["k"] == "UnaryOperator" and c["op"] == "!":
+                    neg = not neg
+                    c = fn.s(fn.strip(c["c"][0], casts=True))
+                if c["k"] in P.CALL_KINDS and c.get("callee", {}).get("q", "").endswith("operator bool") and "obj" in c:
+                    c = fn.s(fn.strip(c["obj"], casts=True))
+                if c["k"] == "DeclRefExpr" and (pol == neg):
+                    # the variable tested holds the result of an allocation
+                    d = c["ref"]["d"]
+                    for a in allocs:
+                        for anc in fn.ancestors(a):
+                            sa = fn.s(anc)
+                            if sa["k"] == "DeclStmt" and any(dd["d"] == d for dd in sa["decls"]):
+                                ok = True
+                            if sa["k"] == "BinaryOperator" and sa["op"] == "=" and local_of(fn, sa["c"][0]) == d:
+                                ok = True
+                if c["k"] in P.CALL_KINDS and (pol == neg) and fn.strip(cond, casts=True) in allocs:
+                    ok = True
+            if not ok:
+                bad = r
+        ctx.ob(rule, "%s<%s>: false only when an allocation failed" % (fn.short, ",".join(fn.d.get("targs") or [])), bad is None, fn.where if bad is None else fn.loc(bad),
+               "%d `return false`, each on the failure edge of an allocation" % len(falses) if bad is None else
+               "`return false` is reached without a failed allocation: callers report NoMemory / overflowed() for a value that merely "
+               "does not fit (e.g. an int 64 outside the range when ARDUINOJSON_USE_LONG_LONG=0 must leave the value null)", nontrivial=False)
+    # configurations without 64-bit storage have no fallible numeric setter: counted, not floored
+    ctx.count(rule + ":numeric setters with a false result", n)
+    nset = sum(1 for f in prog.fns.values() if f.cls.endswith("VariantData") and f.name in ("setInteger", "setFloat"))
+    ctx.floor(rule, "numeric VariantData setters", nset, 4)
+    ctx.doc(rule, false_only_on_failure.__doc__.strip().replace("\n", " "))
